@@ -195,6 +195,30 @@ theorem upVal_eq_matvec (P : Pb) (c : Nat → Rat) (f nc : Nat) (h : ∀ j, upCo
       intro j; by_cases hj : a = j <;> simp [hj]
     rw [sumTo_congr nc _ _ (fun j _ => e j), sumTo_ite_eq, if_pos (h a hu)]
 
+/-- `discretize` is defined (no kept row with column -1, i.e. scipy does not raise) whenever every face is
+    interior or carries a Dirichlet or a Neumann flag — for any flux field. -/
+theorem discretize_defined (P : Pb) (hwf : WF P.T) (nf : Nat)
+    (hbc : ∀ f, f < nf → P.isNeu f = true ∨ P.isDir f = true ∨ Interior P.T f) :
+    anyErr P nf = false := by
+  induction nf with
+  | zero => rfl
+  | succ n ih =>
+    unfold anyErr
+    rw [ih (fun f hf => hbc f (Nat.lt_succ_of_lt hf))]
+    have : upErr P n = false := by
+      unfold upErr
+      rcases hbc n (Nat.lt_succ_self n) with h | h | h
+      · have : deleted P n = true := by unfold deleted; simp [h]
+        simp [this]
+      · cases hu : upstream P n with
+        | some j => simp
+        | none =>
+          have : deleted P n = true := by unfold deleted; rw [inflowDir_eq, hu, h]; simp
+          simp [this]
+      · obtain ⟨j, hj⟩ := interior_upstream_some P hwf n h
+        rw [hj]; simp
+    rw [this]; rfl
+
 /-! ### conservation -/
 
 /-- Balance for ANY topology, flux, flags and data: one explicit step changes the total amount
@@ -407,6 +431,10 @@ example : (List.range 3).map (U Pex 1) = [0, 1, 0] ∧ (List.range 3).map (U Pex
 -- both boundary faces are Dirichlet inflow faces here: empty rows, unit entries in bound_transport_dir
 example : (List.range 3).map (U Pex 0) = [0, 0, 0] ∧ dirDiag Pex 0 = 1 ∧ dirDiag Pex 3 = 1 ∧
     (List.range 3).map (U Pex 3) = [0, 0, 0] := by decide +kernel
+-- `discretize_defined`: its hypothesis holds for Pex; with a Robin-like (unflagged) inflow end the model reports the error
+example : (∀ f, f < 4 → Pex.isNeu f = true ∨ Pex.isDir f = true ∨ Interior Pex.T f) ∧ anyErr Pex 4 = false := by
+  decide +kernel
+example : anyErr ⟨T3, fun _ => 1, fun f => f = 3, fun _ => false⟩ 4 = true := by decide +kernel
 
 /-- circulation of strength 2 around the ring, no boundary; `dt · outflow = 1/2 · 2 ≤ V = 1` -/
 def Pring : Pb := ⟨ring4, fun _ => 2, fun _ => false, fun _ => false⟩
